@@ -222,6 +222,9 @@ type PathQ struct {
 	// ToBlock, if set, makes arrival at this block (even if it has no
 	// nodes, e.g. a loop head) count as reaching the target.
 	ToBlock *cfg.Block
+	// AvoidBlock blocks a path at the entry of a block (e.g. the head of an
+	// enclosing loop, to stay within one iteration).
+	AvoidBlock func(*cfg.Block) bool
 }
 
 // Reach reports whether some path starting at `from` (inclusive) reaches a
@@ -270,6 +273,9 @@ func (f *Flow) Reach(from Site, target func(Site) bool, exitIsTarget bool, q Pat
 			}
 			if q.ToBlock != nil && succ == q.ToBlock {
 				return true, Site{succ, 0}
+			}
+			if q.AvoidBlock != nil && q.AvoidBlock(succ) {
+				continue
 			}
 			if !seen[succ] {
 				seen[succ] = true
@@ -401,4 +407,16 @@ func lexicalGuards(pm map[ast.Node]ast.Node, n ast.Node, stop ast.Node) []Atom {
 		}
 	}
 	return out
+}
+
+
+// loopHead returns the head block (condition re-evaluation point) of a range
+// or for statement.
+func (f *Flow) loopHead(loop ast.Stmt) *cfg.Block {
+	for _, b := range f.G.Blocks {
+		if b.Stmt == loop && (b.Kind == cfg.KindRangeLoop || b.Kind == cfg.KindForLoop) {
+			return b
+		}
+	}
+	return nil
 }
